@@ -51,6 +51,7 @@ class ObjectiveFunction:
         self._verbose = verbose
         self._args = args
         self._n_eval = 0
+        self._fun_last = np.nan
 
     def __call__(self, x):
         """
@@ -828,6 +829,7 @@ class Problem:
         fun_val = self._obj(x_full)
         cub_val, ceq_val = self._nonlinear(x_full)
         self._n_eval += 1
+        self._fun_last = fun_val
         maxcv_val = self.maxcv(x, cub_val, ceq_val)
         if self._store_history:
             self._fun_history.append(fun_val)
@@ -979,6 +981,19 @@ class Problem:
             Number of function evaluations.
         """
         return self._n_eval
+
+    @property
+    def fun_last(self):
+        """
+        Objective function value of the last evaluation.
+
+        Returns
+        -------
+        float
+            Objective function value returned by the last evaluation, before
+            the extreme barrier is applied.
+        """
+        return self._fun_last
 
     @property
     def fun_name(self):
